@@ -2,6 +2,8 @@ SPECIFICATION SSpec
 CONSTANTS
   Threads = {1, 2, 3}
   Scans = 2
+  SaveMask = TRUE
+  MaxFaults = 2
   CountInsideIf = TRUE
 INVARIANTS HandlerCoversBody CountExact InstalledIffUsed NonNegative
 VIEW svarsNoLog
